@@ -283,7 +283,7 @@ func (x *X) loopCore(f *Frame, st *State, L *loopDesc) *State {
 	}
 	for i := range invs {
 		t := evalInv(entry, &invs[i])
-		c.obligeNamed(invName(i, &invs[i], "inv-entry"), "inv-entry", st.pc, t, x.pos(L.pos), invs[i].Text)
+		c.obligeSplit(invName(i, &invs[i], "inv-entry"), "inv-entry", st.pc, t, x.pos(L.pos), invs[i].Text)
 	}
 	for i, ai := range L.autoInv {
 		c.obligeNamed(fmt.Sprintf("inv-entry#L%d.auto%d", L.ord, i+1), "inv-entry", st.pc, ai(entry), x.pos(L.pos), "auto invariant")
@@ -394,7 +394,7 @@ func (x *X) loopCore(f *Frame, st *State, L *loopDesc) *State {
 			L.pre(tmp)
 			for i := range invs {
 				t := evalInv(tmp, &invs[i])
-				c.obligeNamed(invName(i, &invs[i], "inv-preserve"), "inv-preserve", endSt.pc, t, x.pos(L.pos), invs[i].Text)
+				c.obligeSplit(invName(i, &invs[i], "inv-preserve"), "inv-preserve", endSt.pc, t, x.pos(L.pos), invs[i].Text)
 			}
 			for i, ai := range L.autoInv {
 				c.obligeNamed(fmt.Sprintf("inv-preserve#L%d.auto%d", L.ord, i+1), "inv-preserve", endSt.pc, ai(tmp), x.pos(L.pos), "auto invariant")
@@ -402,7 +402,7 @@ func (x *X) loopCore(f *Frame, st *State, L *loopDesc) *State {
 		} else {
 			for i := range invs {
 				t := evalInv(endSt, &invs[i])
-				c.obligeNamed(invName(i, &invs[i], "inv-preserve"), "inv-preserve", endSt.pc, t, x.pos(L.pos), invs[i].Text)
+				c.obligeSplit(invName(i, &invs[i], "inv-preserve"), "inv-preserve", endSt.pc, t, x.pos(L.pos), invs[i].Text)
 			}
 			for i, ai := range L.autoInv {
 				c.obligeNamed(fmt.Sprintf("inv-preserve#L%d.auto%d", L.ord, i+1), "inv-preserve", endSt.pc, ai(endSt), x.pos(L.pos), "auto invariant")
